@@ -190,6 +190,8 @@ func (c *twistPoint) Mul(a *twistPoint, scalar *big.Int) {
 func (c *twistPoint) MakeAffine() {
 	// TODO: do we need to change it to constant-time implementation?
 	if c.z.IsOne() {
+		// t = z² must hold for an affine point as well (Neg and others clear it)
+		c.t.SetOne()
 		return
 	} else if c.z.IsZero() {
 		c.x.SetZero()
